@@ -1002,7 +1002,9 @@ class VM:
         """JavaScript === operator."""
         # Different types are never equal
         if type(a) != type(b):
-            # Special case: int and float
+            # Special case: int and float (bool is a host int, but a different JS type)
+            if isinstance(a, bool) or isinstance(b, bool):
+                return False
             if isinstance(a, (int, float)) and isinstance(b, (int, float)):
                 return a == b
             return False
